@@ -128,6 +128,10 @@ func runC03(c *Ctx) {
 	if ps := c.Prog(ModSQLite); ps != nil {
 		checkPoolNotStarved(c, ps, "C03.R7")
 	}
+	// the registry's slices are edited in place under the shard lock: a publish must not
+	// keep reading their elements after it released the lock (it walks a private copy)
+	c.Rule("C03.R8", "registry list elements are not read outside the shard lock: dispatch walks a private snapshot")
+	checkSnapshot(c, p, R, "C03.R8")
 	c.Stats["package_globals"] = ng
 	// R5 (quick: direct nesting only)
 	runC03LockOrder(c, false)
